@@ -17,7 +17,8 @@ from ..oglib import enc, frac
 RULE = ('grid: every model (Ising, XXZ spin-1/2, XXZ spin-1, Bose-Hubbard d=1..4, Fermi-Hubbard) x L=1..6 x all parameter triples over {0, 1, -5/4, 1/2} '
         '(thorough: over {0, 1, -1, 1/2, -5/4, 2, -1/2, 3/4, 3}), i.e. all zero patterns incl. the identically-zero one and chains shorter than the longest term; '
         'random dyadic parameters; linear_fermionic: all coefficient vectors over {0, 1, -5/4, 1/2} for L<=3 (thorough L<=4), random for L<=6, both operator types, '
-        'all accepted ftype spellings, complex vectors (by linearity). non-trivial = constructor returns an MPO; '
+        'all accepted ftype spellings, complex vectors (by linearity). Stream "dense-matrix (numeric, property oracle)": not a model comparison -- the search oracle (as_matrix() vs own dense reference, '
+        'Hermiticity, block sparsity, charge shift) evaluated always on fixed small inputs (all models, L=1..4) plus a few random ones. non-trivial = constructor returns an MPO; '
         'distinct = distinct (model, L, d, zero pattern of the parameters, bond dimensions, #nodes, #edges)')
 
 QUICK_VALUES = [0.0, 1.0, -1.25, 0.5]
@@ -93,6 +94,13 @@ def _corr_shard(name, shard, nshards, tier, seed):
     c = Corr(name)
     rng = np.random.default_rng([seed, shard, 6])
     thorough = tier == 'thorough'
+    if name.startswith('dense-matrix'):
+        for case in numeric_cases(tier, seed, shard, nshards):
+            r = run_case(case)
+            c.add(dict(case, op='oracle (numeric)'), {'ok': True, 'oracle_ok': r is None, 'observed': r},
+                  {'ok': True, 'oracle_ok': True, 'observed': None},
+                  cls=('oracle', case['model'], case.get('L', len(case.get('coeff', []))), case.get('d')), branches=['oracle:' + case['model']])
+        return c
     if name == 'lattice.grid':
         ops = [op for k, op in enumerate(grid_ops(tier)) if k % nshards == shard]
         for i in range(0, len(ops), 200):
@@ -114,9 +122,28 @@ def _corr_shard(name, shard, nshards, tier, seed):
     return c
 
 
+def numeric_cases(tier, seed, shard, nshards):
+    """fixed small inputs on which the property's own oracle (dense matrix, Hermiticity, block sparsity, charge shift) is always evaluated"""
+    rng = np.random.default_rng([seed, shard, 661])
+    cases = []
+    for L in (1, 2, 3, 4):
+        for ps in ([0.7, -1.3, 0.4], [0.0, 0.9, -0.6], [1.1, 0.0, 0.0]):
+            for model in ('ising', 'xxz', 'xxz1', 'fermi_hubbard'):
+                cases.append({'model': model, 'L': L, 'params': list(ps)})
+            for d in (2, 3):
+                cases.append({'model': 'bose', 'L': L, 'params': list(ps), 'd': d})
+        for create in (True, False):
+            cases.append({'model': 'linfermi', 'coeff': [[0.3 * (k + 1), -0.2 * k] for k in range(L)], 'create': create,
+                          'ftype': 'c' if create else 'a', 'real_dtype': False})
+    cases = [cs for k, cs in enumerate(cases) if k % nshards == shard]
+    for _ in range(3 if tier != 'thorough' else 30):
+        cases.append(gen_case(rng))
+    return cases
+
+
 def correspondence(tier, seed):
     out = []
-    for name in ('lattice.grid', 'lattice.random', 'linfermi'):
+    for name in ('lattice.grid', 'lattice.random', 'linfermi', 'dense-matrix (numeric, property oracle)'):
         c = common.parallel_shards(_corr_shard, name, tier, seed)
         if name == 'lattice.grid':
             c.exhaustive = True
@@ -237,6 +264,8 @@ def gen_case(rng):
 
 def case_of_op(op):
     """candidate inputs from a disagreeing correspondence op"""
+    if op.get('op') == 'oracle (numeric)':
+        return {k: v for k, v in op.items() if k != 'op'}
     if op.get('model') == 'linfermi':
         if 'coeff_re' in op:
             cf = [[a, b] for a, b in zip(op['coeff_re'], op['coeff_im'])]
